@@ -237,6 +237,24 @@ def run_unit(unit):
                 o.set_index(1.66, gi + 1)
                 part.transitions += 1
                 observe(part, o, lambda w: prescription.rows(sp3, index_of(w)), [0.0, 1.0], [0.5876], 'after-set_index')
+            # history: a surface built centred and untilted is tilted and decentred AFTERWARDS through the library's variable
+            # handles (as an optimiser or a tolerancing run does), on the same lens object; the trace must follow the new frame
+            ci = next((i for i, s_ in enumerate(sp['surfs']) if not any(s_.get(q) for q in ('dx', 'dy', 'rx', 'ry'))
+                       and s_['shape'] in ('sphere', 'conic', 'plane')), None)
+            if ci is not None:
+                import copy as _copy
+                from optiland.optimization.variable.tilt import TiltVariable
+                from optiland.optimization.variable.decenter import DecenterVariable
+                base_sp = sp3 if gi is not None else sp
+                sp4 = _copy.deepcopy(base_sp)
+                sp4['surfs'][ci].update(rx=0.03, ry=-0.02, dx=0.15, dy=-0.1)
+                TiltVariable(o, ci + 1, 'x', apply_scaling=False).update_value(0.03)
+                TiltVariable(o, ci + 1, 'y', apply_scaling=False).update_value(-0.02)
+                DecenterVariable(o, ci + 1, 'x', apply_scaling=False).update_value(0.15)
+                DecenterVariable(o, ci + 1, 'y', apply_scaling=False).update_value(-0.1)
+                part.transitions += 4
+                part.count('frames-edited-after-construction')
+                observe(part, o, lambda w: prescription.rows(sp4, index_of(w)), [0.0, 1.0], [0.5876], 'after-tilt-decentre-variables')
         part.sample(dict(word=unit['word'], surfaces=[s['shape'] + ':' + str(s['mat']) for s in sp['surfs']]))
     else:
         o = LZ.sample_lenses()[unit['name']]()
